@@ -12,6 +12,13 @@ fn full_select() -> SelectStatement {
         .order_by(a("c"), Order::Desc).limit(5).offset(6).lock(LockType::Update)
         .window(a("w"), WindowStatement::partition_by(a("c")))
         .with_cte(CommonTableExpression::new().query(Query::select().column(a("x")).from(a("y")).to_owned()).table_name(a("cte")).to_owned());
+    // dialect extensions (fields behind backend features)
+    {
+        use sea_query::extension::mysql::{IndexHintScope, MySqlSelectStatementExt};
+        use sea_query::extension::postgres::{PostgresSelectStatementExt, SampleMethod};
+        s.use_index(a("ix"), IndexHintScope::All);
+        s.table_sample(SampleMethod::SYSTEM, 10.0, None);
+    }
     s
 }
 fn render_q(s: &SelectStatement) -> [String; 3] { [s.to_string(MysqlQueryBuilder), s.to_string(PostgresQueryBuilder), s.to_string(SqliteQueryBuilder)] }
@@ -60,6 +67,12 @@ pub fn search(_obl: &str) -> Vec<Witness> {
             if name != "reset_offset" { e.offset(6); }
             e.lock(LockType::Update).window(a("w"), WindowStatement::partition_by(a("c")))
                 .with_cte(CommonTableExpression::new().query(Query::select().column(a("x")).from(a("y")).to_owned()).table_name(a("cte")).to_owned());
+            {
+                use sea_query::extension::mysql::{IndexHintScope, MySqlSelectStatementExt};
+                use sea_query::extension::postgres::{PostgresSelectStatementExt, SampleMethod};
+                e.use_index(a("ix"), IndexHintScope::All);
+                e.table_sample(SampleMethod::SYSTEM, 10.0, None);
+            }
             if x != e { found.extend(w(&format!("select.{name}()"), format!("{:?}", x.to_string(PostgresQueryBuilder)), &format!("removes exactly that clause: {:?}", e.to_string(PostgresQueryBuilder)))); }
         }
     }
